@@ -10,6 +10,7 @@ CONSTANTS
   MaxFaults = 0
   D_RenameAfterFailedStep = FALSE
   D_NoFsync = FALSE
+  M_ZeroOffsetsWritten = TRUE
   MidSaveCommits = FALSE
   CrashAction = FALSE
   DoExport = FALSE
